@@ -387,6 +387,17 @@ pub fn after_op(
                     }
                 }
             }
+            // ---- C01: a breach seen again (its block was reorged out, a block of the new chain confirms the dispute again)
+            // is answered again: whatever the node did with the penalty meanwhile, it is asked about it or handed it anew
+            if let (true, Some(tr)) = (txs.contains(&k.0), had_tracker) {
+                let p = tr.1;
+                let tip = g.sys.chain.len();
+                let in_index = g.sys.chain[tip.saturating_sub(101)..tip - 1].iter().any(|b| b.3.contains(&p));
+                let asked = log.iter().any(|(m, t)| (m == "send" || m == "get") && *t == p) || g.mon.sent_since_block.contains(&p);
+                if !asked && !in_index {
+                    g.rep.fail("C01", "breach_seen_again_not_answered", &format!("{k:?}: dispute t{} is confirmed again by block {height} (its tracker dates from a block that is no longer there), penalty t{} is in none of the last 100 blocks, and the node was neither asked about it nor given it", k.0 * 16, p * 16));
+                }
+            }
             // ---- C01: only that appointment is dropped
             if had_tracker.is_none() && !txs.contains(&k.0) && cur.appts.get(k) != Some(a) {
                 g.rep.fail("C01", "unrelated_appointment_touched", &format!("{k:?} changed although its dispute is not in block {height}"));
